@@ -52,12 +52,31 @@ func vfSecretNeedles(p *vfPair, payloads [][]byte) map[string][]byte {
 				if len(n) > 48 {
 					n = n[:48]
 				}
+				// A short protected message can consist of nothing but an echo of what the hellos already said in
+				// clear (EncryptedExtensions answering one offered extension is byte-for-byte a slice of the
+				// ClientHello): those bytes on the wire prove nothing, the record-format rules below still apply.
+				if vfInPublicHello(p, n) {
+					continue
+				}
 				needles[fmt.Sprintf("DTLS 1.3 %s body (epoch %d)", vfHSName(uint8(it.Typ)), it.Epoch)] = n
 			}
 		}
 	}
 
 	return needles
+}
+
+// vfInPublicHello: the bytes occur in a handshake message either side legitimately sent at epoch 0.
+func vfInPublicHello(p *vfPair, n []byte) bool {
+	for _, side := range []*vfSide{p.C, p.S} {
+		for _, it := range side.Conn.handshakeCache.VFItems() {
+			if it.Epoch == 0 && bytes.Contains(it.Data, n) {
+				return true
+			}
+		}
+	}
+
+	return false
 }
 
 // vfWireConfidentiality scans every emission of the session.
